@@ -68,6 +68,23 @@ func vT16Server() *Server {
 			}
 			return Prepared(NewStatement(fn)), nil
 		}
+		if query == "copy" {
+			fn := func(ctx context.Context, dw DataWriter, params []Parameter) error {
+				vMark("handler_start")
+				defer vMark("handler_end")
+				cr, err := dw.CopyIn(TextFormat)
+				if err != nil {
+					return err
+				}
+				for i := 0; i < 4; i++ {
+					if err := cr.Read(); err != nil {
+						break
+					}
+				}
+				return dw.Complete("COPY 0")
+			}
+			return Prepared(NewStatement(fn, WithColumns(vTextColumns(1)))), nil
+		}
 		if query == "ok" {
 			fn := func(ctx context.Context, dw DataWriter, params []Parameter) error {
 				vMark("handler_start")
@@ -147,7 +164,15 @@ func vT16Conn(srv *Server, r int) {
 		}()
 		return
 	}
-	if r == -2 || r == -3 {
+	if r == -10 {
+		// scenario 11: a statement function that takes a COPY-in stream — one simple
+		// query, two CopyData and the CopyDone are all there. The function is inside
+		// the command from its first to its last step, also while it waits for the
+		// next message of the stream: a Close must not return in between.
+		input = vCat(vMsgBytes('Q', vCStr([]byte("copy"))),
+			vMsgBytes('d', []byte("a\n")), vMsgBytes('d', []byte("b\n")), vMsgBytes('c', nil))
+		r = 1
+	} else if r == -2 || r == -3 {
 		// scenarios 3 and 4: a client that goes silent in the middle of a message
 		// — an ordinary one (-2), or one that declares more than the limit of 64
 		// (-3) — and never sends the rest
